@@ -136,6 +136,8 @@ def merge_pass(ob, log, budget_ms=2000):
                 ok = True
             elif any(x.op == 'c' and y.op == 'c' for x, y in diff):
                 ok = False
+            elif any(_index_separated(x, y) for x, y in diff):
+                ok = False          # the two nodes speak about different generic elements (fresh index variables): never merged (skipping is sound)
             elif all(_ring_eq_merged(x, y, parent, rmemo) for x, y in diff):
                 ok = True
                 log.append(dict(kind='merge', node=brief(n, 60), with_=brief(r, 60), ok=True, by='ring-normal-form'))
@@ -157,6 +159,37 @@ def merge_pass(ob, log, budget_ms=2000):
         else:
             reps.append(n)
     return parent
+
+
+_IMPL = {('>', '>'), ('>', '>='), ('>', '!='), ('>=', '>='), ('==', '>='), ('==', '<='), ('==', '=='), ('<', '<'), ('<', '<='), ('<', '!='), ('<=', '<='), ('!=', '!=')}
+_NEG = {'>': '<=', '>=': '<', '<': '>=', '<=': '>', '==': '!=', '!=': '=='}
+_FLIP = {'>': '<', '>=': '<=', '<': '>', '<=': '>=', '==': '==', '!=': '!='}
+
+
+def resolve_ites(g, hyps, limit=40):
+    """ite(c, a, b) nodes of the goal whose condition (or its negation) is literally one of the hypotheses up to ring equality of
+    `lhs - rhs` are replaced by the selected branch (sound: the hypotheses are assumed anyway)"""
+    from .ir import collect, subst, ring_equal
+    facts = []
+    for h in hyps:
+        for c in (h.a if h.op == 'and' else (h,)):
+            if getattr(c, 'op', None) == 'cmp': facts.append((c.a[0], c.a[1] - c.a[2]))
+    ites = collect([g], lambda n: isinstance(n, T) and n.op == 'ite')[:limit]
+    repl = {}
+    for it in ites:
+        c = it.a[0]
+        if getattr(c, 'op', None) != 'cmp': continue
+        d = c.a[1] - c.a[2]; op = c.a[0]
+        for (op2, d2) in facts[:200]:
+            try:
+                same = ring_equal(d, d2); opp = (not same) and ring_equal(d, -d2)
+            except Exception:
+                continue
+            if not (same or opp): continue
+            o2 = op2 if same else _FLIP[op2]
+            if (o2, op) in _IMPL: repl[('#', it.id)] = it.a[1]; break
+            if (o2, _NEG[op]) in _IMPL: repl[('#', it.id)] = it.a[2]; break
+    return subst(g, repl) if repl else g
 
 
 def _eq_subst(ob):
@@ -196,6 +229,21 @@ def _numerically_different(diff, ob, penv):
         except EvalError:
             pass
     return votes == len(penv)
+
+
+def _index_separated(x, y, depth=0):
+    """x and y are the same expression except that they mention different generic index variables (fresh `name!k` variables)"""
+    if x is y or depth > 6: return False
+    if not (isinstance(x, T) and isinstance(y, T)): return False
+    if x.op == 'v' and y.op == 'v':
+        return x.a[0] != y.a[0] and ('!' in str(x.a[0]) or '!' in str(y.a[0]))
+    if x.op != y.op or len(x.a) != len(y.a): return False
+    found = False
+    for a, b in zip(x.a, y.a):
+        if a is b or a == b: continue
+        if isinstance(a, T) and isinstance(b, T) and _index_separated(a, b, depth + 1): found = True
+        else: return False
+    return found
 
 
 def _ring_eq_merged(x, y, parent, rmemo):
@@ -356,11 +404,22 @@ def _solve_atomic(ob, timeout_s=60, second=False, seed=0, parent=None):
                     if ring_proves(g2):
                         res['status'] = 'discharged'; res['backend'] = 'ring-normal-form(after merging applications)'; res['time'] = round(time.time() - t0, 3); res['sublog'] = log
                         return res
+                    mp_ = {('#', i): r_ for i, r_ in par.items()}
+                    g3 = resolve_ites(g2, [subst(h, mp_) for h in ob.hyps])
+                    if g3 is not g2 and ring_proves(g3):
+                        res['status'] = 'discharged'; res['backend'] = 'ring-normal-form(after merging applications; case distinctions decided by hypotheses)'; res['time'] = round(time.time() - t0, 3); res['sublog'] = log
+                        return res
             except RecursionError:
                 pass
         # hypothesis slicing: first without the (redundant, separately proved) disequalities of the path condition -
         # fewer hypotheses make a stronger statement, so `unsat` there is a valid discharge; `sat` there means nothing
-        slim = [h for h in ob.hyps if not (h.op == 'cmp' and h.a[0] == '!=')]
+        # ... and without facts about generic indices (fresh `name!k` variables of comprehension / loop elements) that the goal does
+        # not mention: they describe other elements of the lists
+        from .ir import free_vars as _fv
+        gv_ = set(_fv(ob.goal))
+        def _other_index(h):
+            return any('!' in str(v_) and v_ not in gv_ for v_ in _fv(h))
+        slim = [h for h in ob.hyps if not (h.op == 'cmp' and h.a[0] == '!=') and not _other_index(h)]
         if ob.expect == 'unsat' and len(slim) < len(ob.hyps) and not ob.meta.get('noslice'):
             ob2 = Ob(ob.name, slim, ob.goal, ob.prop, ob.expect, ob.meta, ob.lemmas)
             zz2, cons2 = build_query(ob2, log, parent)
